@@ -466,6 +466,27 @@ Case gen_case(const std::string &profile, uint64_t seed, const GenOpts &go) {
             return op;
         };
         int cur_vals = 0;
+        bool leak = profile == "leak";
+        if (leak) {
+            // a fourth value set that is exactly singular (explicit zero column): error return with factors handed back
+            std::vector<cld> sv = c.values[0];
+            int zc = (int)rc.below(n);
+            for (int k = c.M.colptr[zc]; k < c.M.colptr[zc + 1]; ++k) sv[k] = cld(0, 0);
+            c.values.push_back(sv);
+        }
+        auto error_ops = [&]() {   // calls that return early; only issued while no factors exist
+            if (!leak) return;
+            if (expert && rc.chance(0.5)) { OpSpec q = mk(OP_GSSVX); q.values_id = cur_vals; q.x.fact = 0; q.x.lwork = -1; q.x.trans = 0; c.ops.push_back(q); }
+            if (expert && rc.chance(0.3)) { OpSpec q = mk(OP_GSSVX); q.values_id = cur_vals; q.x.nprocs = 0; q.x.fact = 0; c.ops.push_back(q); }
+            if (expert && rc.chance(0.3)) { OpSpec q = mk(OP_GSSVX); q.values_id = cur_vals; q.x.fact = 0; q.x.trans = 0; q.x.lwork = 8 * (long)rc.range(1, 400); q.x.work_align = 0; c.tags["tiny_workspace_ops"]++; c.ops.push_back(q);
+                                             OpSpec d = mk(OP_DESTROY); d.values_id = cur_vals; d.x.lwork = q.x.lwork; c.ops.push_back(d); }
+            if (rc.chance(0.25)) {   // singular matrix: info in 1..n, then destroy what was returned
+                OpSpec sg = mk(expert ? OP_GSSVX : OP_ROUTE); sg.values_id = 3; sg.x.fact = 0; sg.x.trans = 0; sg.x.refact = 0; sg.x.usepr = 0; sg.x.u = 1.0; c.ops.push_back(sg);
+                OpSpec d = mk(OP_DESTROY); d.values_id = 3; c.ops.push_back(d);
+                if (!expert) { OpSpec f = mk(OP_ROUTE_FINALIZE); f.values_id = 3; c.ops.push_back(f); }
+            }
+        };
+        error_ops();
         auto first = [&]() {
             OpSpec op = mk(expert ? OP_GSSVX : OP_ROUTE);
             op.values_id = cur_vals; op.rhs_id = (int)rc.below(3);
@@ -489,6 +510,7 @@ Case gen_case(const std::string &profile, uint64_t seed, const GenOpts &go) {
                 OpSpec d = mk(OP_DESTROY); d.values_id = cur_vals; c.ops.push_back(d);
                 if (!expert) { OpSpec f = mk(OP_ROUTE_FINALIZE); f.values_id = cur_vals; c.ops.push_back(f); }
                 cur_vals = (int)rc.below(3);
+                error_ops();
                 first();
             }
         }
